@@ -108,11 +108,22 @@ func genPlan(rng *rand.Rand, idx int) Plan {
 	}
 	g := 2 + rng.Intn(15)
 	// recorded operations per goroutine (a batch counts 1 + its distinct keys): <= 118 in
-	// total for up to 8 goroutines, <= 40 beyond (porcupine's search grows with the
-	// number of simultaneously open operations; sizes calibrated so that it never times out)
+	// total for up to 4 goroutines, 96 for 5-6, 72 for 7-8, 40 beyond (porcupine's search grows
+	// with the number of simultaneously open operations; calibrated so that it never times out)
 	budget := 118 / g
-	if g > 8 {
+	switch {
+	case g > 8:
 		budget = bigBudget / g
+	case g > 6:
+		budget = 72 / g
+	case g > 4:
+		budget = 96 / g
+	}
+	// beyond 8 goroutines at most 10 mutations per history: unobserved concurrent writes are what
+	// multiplies the states porcupine has to track per set of linearised operations
+	writesLeft := 1 << 30
+	if g > 8 {
+		writesLeft = 10
 	}
 	closer := -1
 	if rng.Intn(12) == 0 {
@@ -169,14 +180,27 @@ func genPlan(rng *rand.Rand, idx int) Plan {
 				}
 				o.CbYield = rng.Intn(2) == 0
 			}
-			cost := 1
+			cost, wcost := 1, 0
 			if o.Kind == "batch" {
 				dk := map[string]bool{}
 				for _, b := range o.Batch {
 					dk[b.K] = true
 				}
 				cost = 1 + len(dk)
+				if !o.Cancel {
+					wcost = len(dk)
+				}
+			} else if isWrite(o.Kind) {
+				wcost = 1
 			}
+			if wcost > writesLeft {
+				o = Op{Kind: "get", View: o.View, Yield: o.Yield, K: keys[rng.Intn(len(keys))]}
+				if rng.Intn(2) == 0 {
+					o.Kind, o.Back, o.CbYield = "iterate", rng.Intn(2) == 0, rng.Intn(2) == 0
+				}
+				cost, wcost = 1, 0
+			}
+			writesLeft -= wcost
 			if used+cost > budget {
 				break
 			}
